@@ -234,6 +234,10 @@ func newBatch() interface{} {
 
 // MakeBatch returns empty batch with preallocated buffer.
 func MakeBatch(n int) *Batch {
+	if n < 0 {
+		// As MakeBatchWithConfig does for its InitialCapacity.
+		n = 0
+	}
 	return &Batch{data: make([]byte, 0, n)}
 }
 
